@@ -1,35 +1,55 @@
 #!/venv/bin/python
 """Detection matrix of the stored seeded changes: for every /verif/seeded/<id>/patch.diff apply it to a scratch copy of
-/repo and run the property's quick check at the given seeds.  usage: tools/seeded_matrix.py [seed ...]   (default 1 2 3)"""
+/repo and run quick checks at the given seeds.
+
+usage: tools/seeded_matrix.py [--only SUBSTR[,SUBSTR...]] [--checks C01,C03] [--jobs N] [seed ...]   (default seeds 1 2 3)
+
+Without --checks each change is run against the check of the property it was written for."""
 import json, os, shutil, subprocess, sys, tempfile
 from concurrent.futures import ThreadPoolExecutor
 
-SEEDS = sys.argv[1:] or ["1", "2", "3"]
+args = sys.argv[1:]
+only, checks, jobs = None, None, 8
+while args and args[0].startswith("--"):
+    opt = args.pop(0)
+    val = args.pop(0)
+    if opt == "--only":
+        only = val.split(",")
+    elif opt == "--checks":
+        checks = val.split(",")
+    elif opt == "--jobs":
+        jobs = int(val)
+SEEDS = args or ["1", "2", "3"]
 ROOT = "/verif/seeded"
 
 
 def one(name):
     d = os.path.join(ROOT, name)
     meta = json.load(open(os.path.join(d, "meta.json")))
-    prop = meta["property"]
+    props = checks or [meta["property"]]
     tmp = tempfile.mkdtemp(prefix="sm_", dir="/tmp")
     try:
         mut = os.path.join(tmp, "repo")
         shutil.copytree("/repo", mut, ignore=shutil.ignore_patterns(".git", "__pycache__", "*.pyc"))
         p = subprocess.run("git apply --whitespace=nowarn %s" % os.path.join(d, "patch.diff"), shell=True, cwd=mut, capture_output=True, text=True)
         if p.returncode:
-            return name, prop, ["patch-error"]
+            return name, ["patch-error"]
         res = []
-        for s in SEEDS:
-            env = dict(os.environ, VERIF_REPO=mut, VERIF_SEED=s, VERIF_EVIDENCE_DIR=os.path.join(tmp, "ev"), VERIF_OUT_DIR=os.path.join(tmp, "out"))
-            p = subprocess.run(["/verif/check", prop, "--tier", "quick"], env=env, capture_output=True, text=True)
-            res.append({0: "MISS", 1: "hit", 2: "ERR"}[p.returncode])
-        return name, prop, res
+        for prop in props:
+            for s in SEEDS:
+                env = dict(os.environ, VERIF_REPO=mut, VERIF_SEED=s, VERIF_EVIDENCE_DIR=os.path.join(tmp, "ev"), VERIF_OUT_DIR=os.path.join(tmp, "out"))
+                p = subprocess.run(["/verif/check", prop, "--tier", "quick"], env=env, capture_output=True, text=True)
+                tags = sorted(set(l.split()[1].rstrip(":") for l in p.stdout.splitlines() if l.startswith("  finding")))
+                res.append("%s@%s:%s%s" % (prop, s, {0: "MISS", 1: "hit", 2: "ERR"}.get(p.returncode, "ERR"), ("(" + ",".join(tags[:2]) + ")") if tags else ""))
+        return name, res
     finally:
         shutil.rmtree(tmp, ignore_errors=True)
 
 
 names = sorted(n for n in os.listdir(ROOT) if os.path.exists(os.path.join(ROOT, n, "patch.diff")))
-with ThreadPoolExecutor(8) as ex:
-    for name, prop, res in ex.map(one, names):
-        print("%-14s %s  %s" % (name, prop, " ".join(res)))
+if only:
+    names = [n for n in names if any(o in n for o in only)]
+with ThreadPoolExecutor(jobs) as ex:
+    for name, res in ex.map(one, names):
+        print("%-16s %s" % (name, "  ".join(res)))
+        sys.stdout.flush()
